@@ -56,7 +56,7 @@ def run(chk):
         "harness/rtbuf_drv.c (clock_gettime interposed; one forked child per program) and the OVNI_VERIF_EVBUF hook",
         "extraction (ExtrOcamlBasic only) + OCaml 4.13 + oracle/rtbuf_drv.ml",
         "hand model coq/Rt/RtMetaDefs.v of the runtime's metadata handling (parson's object API on dotted names + the stream.json state machine of src/rt/ovni.c), tied by comparing the tree of every stream.json after EVERY call (member order included), every returned attribute value and die() vs SIGABRT with the extracted model on generated metadata programs (harness/rtmeta_drv.c, oracle/rtmeta_drv.ml, lib/checks/rtmeta_lib.py)",
-        "translator translate/units/rtmeta.py (stage-C core + the unit's wrappers) and the prelude coq/Rt/RtMetaPre.v (parson / libc primitives, rproc / rthread as state) for the metadata functions of src/rt/ovni.c regenerated into coq/Gen/RtMeta_gen.v on every run; the head of ovni_thread_init (guards, memset) and set_thread_cpus (a loop: primitive fold) are hand-written and tied by the tree comparison only",
+        "translator translate/units/rtmeta.py (stage-C core + the unit's wrappers) and the prelude coq/Rt/RtMetaPre.v (parson / libc primitives, rproc / rthread as state) for the metadata functions of src/rt/ovni.c regenerated into coq/Gen/RtMeta_gen.v on every run; set_thread_cpus (a counted loop) is accepted in one exact shape and rendered as an instance of the generic array_of_list_loop of RtMetaPre.v (key, member names, order, fields from the source; the meaning of the parson calls inside the loop is that primitive's); ovni_thread_init and ovni_proc_init are generated whole (their buffer / stream / directory calls are primitives outside the metadata state)",
         "parson's serialise-then-parse round trip (json_serialize_to_file_pretty / json_parse_file_with_comments) is trusted in C02_metadata_complete (m_parses = true); the tie reads the real text with Python's json",
         "per-loom completeness of ovni.loom_cpus, rank/nranks and the acceptance by the real emulator are NOT theorems: an independent Python decider judges the real final stream.json files and the real ovniemu -l runs on every generated protocol-following trace",
     ]
